@@ -82,6 +82,26 @@ CHECKS["C10"] = (
     "the property states; feature counts 1-4; float32 default world with float64 round trips.",
     "DESIGN.md section 3 C10")
 
+CHECKS["C09"] = (
+    "order / continuity / range monitor over sorted grids evaluated by the real spline functions (uniform grid + every knot and its "
+    "ulp, 1e-9, 1e-6 neighbours + end-points + tail junction), both directions, float64 and float32",
+    "For 4 families x bounded boxes (square, shifted, non-square, up to 1e3) / linear tails (B 0.5..1e3) x bins 1-10 x parameter "
+    "policies (exactly zero, randn 0.3/1/3, +-15 alternating) every grid row is checked for: non-decreasing, strictly growing where "
+    "its own slope demands it, no jump across ulp/1e-9/1e-6 steps, end-points mapped to end-points, range kept, identity with zero "
+    "log-det outside the tail bound. Tolerances are the library's own evaluation noise (256 eps x scale x max slope).",
+    "Knot positions come from a reference model used only to place inputs; inverse-direction continuity is not decidable for "
+    "strongly non-uniform bins (inverse slopes up to 1e13) and is skipped there; saturated points (|log-derivative| > 25 / 11 in f32) skipped.",
+    "DESIGN.md section 3 C09")
+CHECKS["C17"] = (
+    "exception-type / finiteness monitor with single-probe batches placed on, one ulp inside/outside, 1e-6 inside/outside and far "
+    "outside every domain boundary, for the restricted nonlinearities, the four spline functions (boxes and tail bounds 0.5..1e6, "
+    "float32 and float64) and their coupling / autoregressive / CDF wrappers",
+    "InputOutsideDomain (exactly the library's class or a subclass) must be raised iff the probe is outside the mathematical domain "
+    "of that direction; in-domain probes must return finite numbers and raise nothing (any other exception type is a violation); "
+    "unconstrained splines must accept every finite input and be the identity beyond the bound.",
+    "Mathematical domains are stated in the check; float32 with parameter scale 3 is left to C19's 'moderate parameters' clause.",
+    "DESIGN.md section 3 C17")
+
 PENDING_REASON = "check not built yet in this session (planned, see DESIGN.md section 3); not claimed until it exists and is calibrated"
 
 
